@@ -16,6 +16,7 @@ import os
 import re
 from pathlib import Path
 
+from zmon import harness
 from zmon.mon import contracts
 from zmon.mon.clock import frozen
 from zmon.res import Acc, rng_for
@@ -33,7 +34,7 @@ ASSUMPTIONS = [
     "freezegun controls datetime.now() as seen by the repository (same mechanism the repo's tests rely on)",
     "acyclic maps only (the statement quantifies over acyclic configurations)",
 ]
-REQUIRED_COUNTERS = ["contract_evals.expand_file_group_paths", "enter.expand_file_group_paths"]
+REQUIRED_COUNTERS = ["contract_evals.expand_file_group_paths", "enter.expand_file_group_paths", "edit.judged"]
 MIN_JUDGED = {"quick": 2000, "thorough": 50000}
 
 DAYS = [
@@ -166,6 +167,9 @@ def plan(tier: str, seed: int) -> list[dict]:
     for start in range(0, n_rand, per):
         units.append({"kind": "random", "start": start, "n": per, "seed": seed})
     units.append({"kind": "cli"})
+    n_edit = 48 if tier == "quick" else 800
+    for start in range(0, n_edit, 8):
+        units.append({"kind": "edit", "start": start, "n": 8, "seed": seed})
     return units
 
 
@@ -283,9 +287,68 @@ def run_unit(unit: dict) -> dict:
                     _check(acc, args, gmap, today)
     elif unit["kind"] == "cli":
         _check_cli(acc)
+    elif unit["kind"] == "edit":
+        for idx in range(unit["start"], unit["start"] + unit["n"]):
+            _check_edit(acc, unit["seed"], idx)
     acc.count("enter.expand_file_group_paths", _STATE["entered"])
     acc.merge_counts(contracts.take_counts())
     return acc.result()
+
+
+def _check_edit(acc: Acc, seed: int, idx: int) -> None:
+    """End to end: `zorg edit ARGS` with the group map in a config file and a recording stand-in for the editor:
+    the editor must be started with exactly the reference flattening (in order, duplicates kept)."""
+    import json as _json
+    import sys as _sys
+
+    from zmon import db
+
+    rng = rng_for(ID, seed, f"edit{idx}")
+    for _ in range(20):
+        args, gmap, today = _random_case(rng)
+        # (plain names only: the point is order and multiplicity, not path syntax)
+        if not args or not any(a.startswith("@") for a in args) or len(args) > 1 and rng.random() < 0.3:
+            continue
+        try:
+            exp = ref_expand(args, gmap, today)
+        except (NoSuchGroup, IndexError):
+            continue
+        if exp and len(exp) != len(set(map(str, exp))) or rng.random() < 0.3:
+            break
+    else:
+        acc.not_judged += 1
+        return
+    if not exp:
+        acc.not_judged += 1
+        return
+    base = harness.fresh_dir("c18edit")
+    root = base / "org"
+    root.mkdir()
+    rec = base / "editor_args.json"
+    fake = base / "fake_vim.py"
+    fake.write_text(f"#!{_sys.executable}\nimport json, sys\nopen({str(rec)!r}, 'w').write(json.dumps(sys.argv[1:]))\n")
+    fake.chmod(0o755)
+    cfg = db.write_config(base / "cfg.yml", file_group_map={k: list(v) for k, v in gmap.items()} or {"unused": ["x.zo"]}, vim_exe=str(fake), keep_alive_file=str(base / "no_keep_alive"))
+    case = {"edit": True, "seed": seed, "idx": idx, "args": args, "map": gmap, "today": today.isoformat()}
+    acc.evaluations += 1
+    _STATE["today"] = today  # (the contract on expand_file_group_paths, which run_edit calls, reads it)
+    with frozen(today):
+        r = db.cli(root, "edit", *args, config=cfg)
+    if not rec.exists():
+        acc.not_judged += 1
+        acc.count("edit.editor_not_started")
+        acc.sample({"edit_not_started": args, "map": gmap, "rc": r.rc, "err": r.err[-300:], "exc": str(r.exc)[:200]}, cap=3)
+        return
+    acc.judged += 1
+    acc.count("edit.judged")
+    got = [a for a in _json.loads(rec.read_text()) if a.startswith(str(root) + "/")]
+    want = [str(root / (str(p) if "." in str(p) else f"{p}.zo")) for p in exp]
+    if got != want:
+        acc.violation(f"`zorg edit {' '.join(args)}` started the editor with {[g[len(str(root)) + 1:] for g in got]}, reference flattening {[w[len(str(root)) + 1:] for w in want]}", case, cls="editor not started with the reference flattening (edit route)")
+    acc.sig(("edit", len(args), len(exp), len(exp) != len(set(map(str, exp)))))
+    import shutil as _sh
+
+    _sh.rmtree(base, ignore_errors=True)
 
 
 def _check_cli(acc: Acc) -> None:
@@ -319,7 +382,9 @@ def _check_cli(acc: Acc) -> None:
 
 def replay(case: dict) -> dict:
     acc = Acc()
-    if "argv" in case:
+    if case.get("edit"):
+        _check_edit(acc, case["seed"], case["idx"])
+    elif "argv" in case:
         _check_cli(acc)
     else:
         today = dt.date.fromisoformat(case["today"])
